@@ -17,6 +17,7 @@ From Verif.Eco.Maven Require Entry.
 From Verif.Eco.Golang Require Entry.
 From Verif.Eco.Conan Require Entry.
 From Verif.Eco.Npm Require Entry.
+From Verif.Eco.Alpm Require Entry.
 
 Definition ecosystems : list eco := [
   Cran.Entry.entry;
@@ -34,5 +35,6 @@ Definition ecosystems : list eco := [
   Maven.Entry.entry;
   Golang.Entry.entry;
   Conan.Entry.entry;
-  Npm.Entry.entry
+  Npm.Entry.entry;
+  Alpm.Entry.entry
 ].
